@@ -127,9 +127,14 @@ Fixpoint hlist_eqb (a b : list heff) : bool :=
   | _, _ => false
   end.
 Definition is_hskip (e : heff) : bool := match e with HSkip => true | _ => false end.
-(* the checker: close the pool, one forced (non-periodic) checkpoint, exit with the configured code *)
+(* the checker: exactly one forced (non-periodic) checkpoint that reaches the dump, then exit with the
+   configured code; closing the pool may come before or after the checkpoint (it is not part of the
+   property), logging anywhere, nothing else                                                        *)
 Definition handler_ok (npw : bool) (effs : list heff) : bool :=
-  npw && hlist_eqb (filter (fun e => negb (is_hskip e)) effs) [HClosePool; HCheckpoint false; HExit true].
+  let l := filter (fun e => negb (is_hskip e)) effs in
+  npw && (hlist_eqb l [HClosePool; HCheckpoint false; HExit true]
+          || hlist_eqb l [HCheckpoint false; HClosePool; HExit true]
+          || hlist_eqb l [HCheckpoint false; HExit true]).
 Definition handler_today : list heff := [HSkip; HClosePool; HCheckpoint false; HSkip; HExit true].
 
 (* ---- ImportanceNestedSampler.checkpoint ------------------------------------------------------ *)
